@@ -221,6 +221,17 @@ class Runner:
     def do_noop(self, op):
         return None
 
+    def do_bind_foreign(self, op):
+        """Bind another machine's event triggers onto this machine object (bind_events_to accepts any
+        target); they are not events of this machine."""
+        src = self.objs[op["from"]]["sm"]
+        ent = self.objs[op["inst"]]
+        with warnings.catch_warnings():
+            warnings.simplefilter("ignore")
+            src.bind_events_to(ent["sm"])
+        ent["foreign"] = op["from"]
+        return None
+
     def snapshot(self, tag):
         ent = self.objs[tag]
         sm = ent["sm"]
@@ -237,6 +248,10 @@ class Runner:
             "start_value": enc(sm.start_value),
             "class_attrs": sorted(vars(type(sm))),
             "cb_records": sum(1 for r in SIM.trace if r["k"] == "cb+"),
+            "user_attributes_evaluated": sum(1 for r in SIM.trace if r["k"] == "probe"),
+            "foreign_machine_state": (enc(self.objs[ent["foreign"]]["sm"].current_state_value)
+                                      if ent.get("foreign") in self.objs and "sm" in self.objs.get(ent.get("foreign"), {})
+                                      else None),
             "registry": len(registry._REGISTRY),
             "model_keys": sorted(getattr(mo, "__dict__", {})),
         }
@@ -523,6 +538,12 @@ def isolated(fn, *args):
     if os.environ.get("VERIF_NO_FORK"):
         return fn(*args)
     lib()
+    if not _lib.get("frozen"):
+        # objects that exist now never need collecting in the children: keeps their gc.collect() from
+        # touching (and so copying) the parent's whole heap
+        gc.collect()
+        gc.freeze()
+        _lib["frozen"] = True
     r, w = os.pipe()
     pid = os.fork()
     if pid == 0:
